@@ -42,6 +42,7 @@ TOL32 = 5e-5          # float32 paths (measured worst ~1e-6)
 KTOL64 = 1e-9         # correspondence tolerance relative to max|B B'|, float64 paths
 KTOL32 = 1e-4
 ALGOS = ["RFD_SON", "FD_SON", "ADA_FD", "S_ADA"]
+GUARDS = {"lo": 0.99, "hi": 1.01, "thr": 0.01}     # replaced by the literals parsed from `_fd_update_root` (const stage)
 
 
 # ----------------------------------------------------------------------------- history generation (parent, numpy only)
@@ -124,7 +125,12 @@ def _run_ds_direct(c):
         st["dtype"] = str(val.dtype)
         steps.append(st)
         prev = val
-    return {"steps": steps}
+    # what the PUBLIC optimizer would keep of this state: p[:dim, :k+2], re-padded with zero rows (K5)
+    reload = {}
+    for dim in sorted({D, d, max(1, d - 1)}):
+        pcm = jnp.pad(prev[:dim, :], ((0, D - dim), (0, 0)))
+        reload[str(dim)] = _ds_unpack(ds, pcm, k)
+    return {"steps": steps, "reload": reload}
 
 
 def _param_stats(ds, jax, st):
@@ -176,8 +182,14 @@ def _run_ds_public(c):
 
 
 def _sk_state_obs(ax):
-    return {"V": tolist(ax.eigvecs), "e": tolist(ax.eigvals), "inv": tolist(ax.inv_eigvals), "t": float(ax.tail),
-            "inv_tail": float(ax.inv_tail), "dtype": str(ax.eigvecs.dtype)}
+    import numpy as np
+    o = {"V": tolist(ax.eigvecs), "e": tolist(ax.eigvals), "inv": tolist(ax.inv_eigvals), "t": float(ax.tail),
+         "inv_tail": float(ax.inv_tail), "dtype": str(ax.eigvecs.dtype)}
+    if hasattr(ax.ema_ggt, "shape"):
+        o["ema_ggt"] = tolist(ax.ema_ggt)
+    if hasattr(ax.svd_result_s, "shape"):
+        o["ekfac_ok"] = bool(np.all(np.isfinite(np.asarray(ax.svd_result_s))) and np.all(np.isfinite(np.asarray(ax.svd_result_u))))
+    return o
 
 
 def _run_sketchy_direct(c):
@@ -185,7 +197,8 @@ def _run_sketchy_direct(c):
     import numpy as np
     from precondition.tearfree import sketchy
     opts = sketchy.Options(epsilon=c["epsilon"], rank=c["rank"], relative_epsilon=c["relative"],
-                           second_moment_decay=c["beta"], update_freq=1)
+                           second_moment_decay=c["beta"], update_freq=1, add_ggt=bool(c.get("add_ggt", False)),
+                           ekfac_svd=bool(c.get("ekfac_svd", False)), linear_approx_tail=bool(c.get("linear_tail", False)))
     shape = tuple(c["shape"])
     state = sketchy._init(opts, {"w": jnp.zeros(shape, jnp.float32)})
     ax_state = state.sketches["w"].axes[c["axis"]]
@@ -205,7 +218,9 @@ def _run_sketchy_public(c):
     import numpy as np
     from precondition.tearfree import sketchy
     opts = sketchy.Options(epsilon=c["epsilon"], rank=c["rank"], relative_epsilon=c["relative"],
-                           second_moment_decay=c["beta"], update_freq=c.get("update_freq", 1))
+                           second_moment_decay=c["beta"], update_freq=c.get("update_freq", 1),
+                           add_ggt=bool(c.get("add_ggt", False)), ekfac_svd=bool(c.get("ekfac_svd", False)),
+                           linear_approx_tail=bool(c.get("linear_tail", False)), memory_alloc=c.get("alloc"))
     tx = sketchy.apply(opts)
     names = sorted(c["shapes"])
     params = {n: jnp.zeros(tuple(c["shapes"][n]), jnp.float32) for n in names}
@@ -343,9 +358,9 @@ def build_traces(c, obs):
                                 {"kind": "ds", "ridge": c["ridge"], "relative": c["relative"], "tol": 1e-6, "ps": dim, "public": True,
                                  "k5": dim < M}))
     elif impl in ("sketchy_direct", "sketchy_public"):
-        def mk(shape, axis, states, grads, who):
+        def mk(shape, axis, states, grads, who, rank=None):
             d = shape[axis]
-            k = min(d, c["rank"])
+            k = min(d, c["rank"] if rank is None else rank)
             pre = np_state(np.zeros((d, k)), np.zeros(k), 0.0)
             pre["e"] = np.zeros(k)
             pp, Gs = [], []
@@ -357,7 +372,10 @@ def build_traces(c, obs):
                 Gs.append(unfold(g, axis))
                 pre = post
             return Trace(c, who, d, k, c["beta"], True, 2.0 * len(shape), Gs, pp,
-                         {"kind": "sketchy", "epsilon": c["epsilon"], "relative": c["relative"]})
+                         {"kind": "sketchy", "epsilon": c["epsilon"], "relative": c["relative"],
+                          "linear_tail": bool(c.get("linear_tail", False)) and d > k,
+                          "ema": [s_.get("ema_ggt") for s_ in states] if c.get("add_ggt") else None,
+                          "ekfac_ok": [s_.get("ekfac_ok") for s_ in states] if c.get("ekfac_svd") else None})
         if impl == "sketchy_direct":
             traces.append(mk(c["shape"], c["axis"], obs["steps"], c["grads"], "sketchy_direct"))
         else:
@@ -368,7 +386,7 @@ def build_traces(c, obs):
                     # with update_freq > 1 only every uf-th gradient enters the sketch (count % uf == 0)
                     sel = [i for i in range(len(sts)) if i % uf == 0]
                     traces.append(mk(c["shapes"][n], ax, [sts[i] for i in sel], [c["grads"][i][n] for i in sel],
-                                     f"sketchy_public:{n}:axis{ax}"))
+                                     f"sketchy_public:{n}:axis{ax}", rank=(c["alloc"][n][ax] if c.get("alloc") else None)))
                     if uf > 1:
                         traces[-1].extra["frozen"] = [(sts[i - 1], sts[i]) for i in range(1, len(sts)) if i % uf != 0]
     elif impl == "oco":
@@ -414,6 +432,7 @@ def oracle_trace(tr, hist_kind):
     tol = TOL32 if tr.f32 else TOL64
     C = np.zeros((D, D))
     kind = tr.extra["kind"]
+    lin_tail = bool(tr.extra.get("linear_tail"))     # Sketchy linear_approx_tail: `tail` is a fitted estimate, not the escaped mass
     t_track = 0.0
     info = {"max_lo": 0.0, "max_hi": 0.0, "max_rec": 0.0, "max_orth": 0.0, "max_inv": 0.0, "deflations": 0, "zero_steps": 0,
             "lowrank_exact": 0, "max_lowrank": 0.0}
@@ -423,7 +442,12 @@ def oracle_trace(tr, hist_kind):
             t = None
         else:
             t = post["t"]
-        vals = [V, l] + ([np.array([t])] if t is not None else [])
+        vals = [V, l] + ([np.array([t])] if (t is not None and not lin_tail) else [])
+        if lin_tail and np.isnan(t):
+            fails.append(("finite", "linear_approx_tail: tail is NaN", step))
+            break
+        if tr.extra.get("ekfac_ok") and tr.extra["ekfac_ok"][step] is False:
+            fails.append(("finite", "ekfac_svd: non-finite svd_result_u / svd_result_s", step))
         if not all(np.all(np.isfinite(x)) for x in vals):
             fails.append(("finite", "non-finite sketch state", step))
             break
@@ -469,15 +493,15 @@ def oracle_trace(tr, hist_kind):
         # bracket
         t_use = t if t is not None else t_track
         lo = sym_eigmin(C - S) / sc
-        hi = sym_eigmin(S + t_use * np.eye(D) - C) / sc
+        hi = sym_eigmin(S + t_use * np.eye(D) - C) / sc if np.isfinite(t_use) else 0.0
         info["max_lo"] = max(info["max_lo"], -lo)
         info["max_hi"] = max(info["max_hi"], -hi)
         if lo < -tol:
             fails.append(("lower", f"sketch <= C fails: min eig(C - sketch)/tr(C) = {lo:.3e}", step))
-        if hi < -tol:
+        if hi < -tol and not lin_tail:
             fails.append(("upper", f"C <= sketch + t I fails: min eig(sketch + t I - C)/tr(C) = {hi:.3e}", step))
         # tail recurrence
-        if t is not None:
+        if t is not None and not lin_tail:
             rec = abs(t - t_expect) / sc
             info["max_rec"] = max(info["max_rec"], rec)
             if rec > tol:
@@ -491,7 +515,7 @@ def oracle_trace(tr, hist_kind):
             dl = float(np.abs(ls - beta * lin).max()) / sc if k > 0 else 0.0
             if dz > tol or dl > tol:
                 fails.append(("zero_step", f"zero-gradient step: |sketch' - b sketch|/tr = {dz:.3e}, |l' - b l|/tr = {dl:.3e}", step))
-            if t is not None and abs(t - beta * t_pre) / sc > tol:
+            if t is not None and not lin_tail and abs(t - beta * t_pre) / sc > tol:
                 fails.append(("zero_step", f"zero-gradient step: t' = {t:.9g} != b t = {beta * t_pre:.9g}", step))
         # rank <= k history is tracked exactly
         if hist_kind == "lowrank":
@@ -500,10 +524,10 @@ def oracle_trace(tr, hist_kind):
             info["max_lowrank"] = max(info["max_lowrank"], ex, (t_use / sc))
             if ex > tol:
                 fails.append(("upper", f"rank<=k history not tracked exactly: |sketch - C|/tr = {ex:.3e}", step))
-            if t_use / sc > tol:
+            if t_use / sc > tol and not lin_tail:
                 fails.append(("recurrence", f"rank<=k history: escaped mass t/tr = {t_use / sc:.3e} should be 0", step))
         # stored inverse roots
-        if kind in ("ds", "sketchy"):
+        if kind in ("ds", "sketchy") and not lin_tail:
             p = tr.p
             itol = 2e-4 if tr.f32 else 1e-9
             if kind == "sketchy":
@@ -540,6 +564,21 @@ def oracle_trace(tr, hist_kind):
                 fails.append(("recurrence", f"alpha changed to {post['alpha']!r} for {tr.extra['algo']}", step))
             if abs(post["e"][-1]) > 1e-7 * max(np.sqrt(sc), 1e-300):
                 fails.append(("sign", f"last root eigenvalue {post['e'][-1]:.3e} should be 0", step))
+    if tr.extra.get("ema") and all(e is not None for e in tr.extra["ema"]):
+        # add_ggt: informational only (the property does not speak about ema_ggt): which discount does the EMA use?
+        E = np.zeros((D, D))
+        m_sqrt = m_beta = 0
+        for G, e in zip(tr.G, tr.extra["ema"]):
+            e = np.asarray(e, dtype=np.float64)
+            sb = np.sqrt(beta)
+            a1 = E * sb + G @ G.T * (1 - sb)
+            a2 = E * beta + G @ G.T * (1 - beta)
+            scale = max(np.abs(e).max(), 1e-30)
+            m_sqrt += int(np.abs(e - a1).max() <= 1e-4 * scale)
+            m_beta += int(np.abs(e - a2).max() <= 1e-4 * scale)
+            E = e
+        info["ema_matches_sqrt_decay"] = m_sqrt
+        info["ema_matches_decay"] = m_beta
     for (a, b) in tr.extra.get("frozen", []):
         if any(a[key] != b[key] for key in ("V", "e", "t", "inv", "inv_tail")):
             fails.append(("frozen", "sketch changed on a step that is not an update step (update_freq)", -1))
@@ -581,7 +620,7 @@ def step_request(tr, i, op):
         return {"op": "ds_" + op, "d": tr.D, "k": tr.k, "ridge_epsilon": hx(tr.extra["ridge"]),
                 "error_tolerance": hx(tr.extra["tol"]), "relative": bool(tr.extra["relative"]), "beta": hx(tr.beta),
                 "padding_start": int(tr.extra["ps"]), "V": hx(pre["V"]), "l": hx(pre["l"]), "t": hx(pre["t"]), "G": hx(Gm),
-                "p": hx(tr.p)}
+                "p": hx(tr.p), "g_lo": hx(GUARDS["lo"]), "g_hi": hx(GUARDS["hi"]), "g_thr": hx(GUARDS["thr"])}
     if kind == "sketchy":
         return {"op": "sketchy_" + op, "d": tr.D, "k": tr.k, "m": G.shape[1], "beta": hx(tr.beta), "V": hx(pre["V"]),
                 "e": hx(pre["e"]), "t": hx(pre["t"]), "G": hx(G), "p": hx(tr.p), "epsilon": hx(tr.extra["epsilon"]),
@@ -681,6 +720,13 @@ def compare_step(ctx, tr, i, rep, scale):
             if bool(rep["has_zeros"]) != bool(post["has_zeros"]):
                 ctx.disagree("ds_step.has_zeros", case, post["has_zeros"], rep["has_zeros"], "has_zeros flag")
                 ok = False
+    if kind == "ds":
+        gd = kit.hex_f64(rep["guard_diff"])
+        gok = gd <= 1e-12 * max(1.0, sc) and bool(rep["guard_flags_equal"])
+        ctx.corr("ds_guards_identity", gok)
+        if not gok:
+            ctx.disagree("ds_guards_identity", case, None, None, f"guarded and unguarded model steps differ by {gd:.3e} on a LAPACK SVD "
+                         "(ds_guards_are_identities says they coincide under SvdSpec)")
     ctx.corr(kind + "_step", ok)
     return ok
 
@@ -720,6 +766,47 @@ def correspondence(ctx, traces, skip):
             raise kit.InfraError(f"driver error on {tr.who}: {rep['error']}")
         scale = check_svd(ctx, rep, tr.who)
         compare_step(ctx, tr, i, rep, scale)
+
+
+def reload_correspondence(ctx, pairs):
+    """`publicReload` (pack, cut p[:dim], re-pad, unpack) vs the real pack/unpack on the final state of ds_direct cases.
+    EXACT (values only move between slots)."""
+    import numpy as np
+    reqs, meta = [], []
+    for c, o in pairs:
+        if "reload" not in o or not o.get("steps"):
+            continue
+        last = o["steps"][-1]
+        if not np.all(np.isfinite(np.asarray(last["V"]))):
+            continue
+        for dim_s, r in sorted(o["reload"].items()):
+            reqs.append({"op": "ds_reload", "d": c["D"], "k": c["k"], "dim": int(dim_s), "V": hx(last["V"]), "l": hx(last["l"]),
+                         "t": hx(last["t"]), "inv": hx(last["inv"]), "const": hx(last["const"]),
+                         "flag": hx(1.0 if last["has_zeros"] else 0.0)})
+            meta.append((c, int(dim_s), r, last))
+    if not reqs:
+        return
+    for (c, dim, r, last), rep in zip(meta, drv(ctx, reqs)):
+        if "error" in rep:
+            raise kit.InfraError(f"driver error (ds_reload): {rep['error']}")
+        same = (np.array_equal(unhx(rep["V"]), np.asarray(r["V"])) and np.array_equal(unhx(rep["l"]), np.asarray(r["l"]))
+                and unhx(rep["t"]) == r["t"])
+        ctx.corr("ds_reload", same)
+        ctx.dist("ds_reload:" + ("dim==max_size" if dim == c["D"] else "dim<max_size"))
+        if not same:
+            ctx.disagree("ds_reload", {"case": slim(c), "dim": dim}, {"l": r["l"], "t": r["t"]},
+                         {"l": unhx(rep["l"]).tolist(), "t": float(unhx(rep["t"]))}, "state read after the public cut")
+        if dim == c["D"]:
+            # ds_public_cut_harmless_when_dim_eq_max_size, on the real pack/unpack
+            keep = (np.array_equal(np.asarray(r["V"]), np.asarray(last["V"])) and np.array_equal(np.asarray(r["l"]), np.asarray(last["l"]))
+                    and r["t"] == last["t"])
+            ctx.corr("ds_reload_identity_at_max_size", keep)
+            if not keep:
+                ctx.disagree("ds_reload_identity_at_max_size", {"case": slim(c)}, r["l"], last["l"], "cut at dim == max_size changed the state")
+        elif c["k"] + 2 < dim:
+            lost = [a for a in range(c["k"]) if c["D"] - c["k"] + a >= dim]
+            if lost and any(last["l"][a] != 0.0 for a in lost) and all(r["l"][a] == 0.0 for a in lost):
+                ctx.dist("ds_reload_lost_eigenvalue_slots", len(lost))
 
 
 def model_chain(ctx, traces):
@@ -848,6 +935,7 @@ def gen_cases(tier, seed):
         grads = gen_history(nrng, kind, shape, T, min(rank, d), True, lowrank_axis=axis)
         cases.append({"impl": "sketchy_direct", "hist": kind, "shape": shape, "axis": axis, "rank": rank, "beta": beta,
                       "epsilon": rng.choice([1e-7, 0.0, 1e-3, 1e-2]), "relative": rng.random() < 0.6,
+                      "ekfac_svd": i % 7 == 3, "add_ggt": i % 7 == 5, "linear_tail": i % 8 == 6,
                       "grads": [g.tolist() for g in grads]})
     # --- Sketchy public
     sk_trees = [{"w": [6, 5]}, {"a": [8], "b": [4, 7]}, {"w": [3, 4, 5]}, {"w": [10, 3]}, {"a": [5, 5], "b": [2, 9]}]
@@ -862,7 +950,10 @@ def gen_cases(tier, seed):
         grads = [{n: per[n][t].tolist() for n in shapes} for t in range(T)]
         cases.append({"impl": "sketchy_public", "hist": kind, "shapes": shapes, "rank": rank,
                       "beta": rng.choice([1.0, 0.25, 0.5, 0.9, 0.999]), "epsilon": rng.choice([1e-7, 1e-3]),
-                      "relative": rng.random() < 0.7, "update_freq": 1 if i % 4 else 2, "grads": grads})
+                      "relative": rng.random() < 0.7, "update_freq": 1 if i % 4 else 2,
+                      "ekfac_svd": i % 5 == 1, "add_ggt": i % 5 == 2, "linear_tail": i % 6 == 5,
+                      "alloc": ({n: [rng.randint(1, 4) for _ in sh] for n, sh in shapes.items()} if i % 3 == 2 else None),
+                      "grads": grads})
     # --- OCO
     for i in range(n_oco):
         kind = pick_kind(rng, i)
@@ -972,18 +1063,59 @@ def execute(ctx, cases):
                 tag, msg, step = real[0]
                 ctx.violation(f"{tr.who} history={c['hist']} step {step}: {msg}" + (f" (+{len(real) - 1} more)" if len(real) > 1 else ""), c)
                 skip.add(id(tr))
+            for kk_ in ("ema_matches_sqrt_decay", "ema_matches_decay"):
+                if kk_ in info:
+                    ctx.dist("sketchy_add_ggt:" + kk_, info[kk_])
+            if tr.extra.get("linear_tail"):
+                ctx.dist("trace:sketchy:linear_approx_tail(sketch-side clauses only)")
+                skip.add(id(tr))     # `tail` is a fitted estimate there: the model (and the statement about t) does not apply
             if k5:
                 skip.add(id(tr))     # the lost eigenvalues make the stored state differ from what the model keeps
             traces.append(tr)
     ctx.cov["oracle_worst_margins"] = worst
     correspondence(ctx, traces, skip={i for i in skip})
+    reload_correspondence(ctx, [(c, obs[id(c)]) for c in cases if c["impl"] == "ds_direct" and "exception" not in obs[id(c)]])
     model_chain(ctx, [tr for tr in traces if id(tr) not in skip])
     return obs
+
+
+def guard_literals():
+    """(lo, hi, thr) of `(lo <= norms) & (norms <= hi)` and `padding_mass > thr` in `_fd_update_root` (ast)."""
+    import ast
+    src = os.path.join(kit.repo_src(), "distributed_shampoo.py")
+    tree = ast.parse(open(src).read(), src)
+    fn = [n for n in ast.walk(tree) if isinstance(n, ast.FunctionDef) and n.name == "_fd_update_root"]
+    if not fn:
+        raise kit.InfraError("_fd_update_root not found")
+    lo = hi = thr = None
+    num = lambda n: n.value if isinstance(n, ast.Constant) and isinstance(n.value, (int, float)) else None
+    for n in ast.walk(fn[0]):
+        if isinstance(n, ast.Compare) and len(n.ops) == 1 and len(n.comparators) == 1:
+            l, r, op = n.left, n.comparators[0], n.ops[0]
+            if isinstance(op, ast.LtE) and num(l) is not None and isinstance(r, ast.Name) and r.id == "norms":
+                lo = float(num(l))
+            if isinstance(op, ast.LtE) and num(r) is not None and isinstance(l, ast.Name) and l.id == "norms":
+                hi = float(num(r))
+            if isinstance(op, ast.Gt) and num(r) is not None and isinstance(l, ast.Name) and l.id == "padding_mass":
+                thr = float(num(r))
+    return lo, hi, thr
 
 
 def const_stage(ctx):
     """literals the oracle/model rely on."""
     from harness import consts
+    lo, hi, thr = guard_literals()
+    ctx.cov.setdefault("constants", {})["_fd_update_root.guards"] = {"lo": lo, "hi": hi, "thr": thr}
+    if lo is None or hi is None or thr is None:
+        ctx.const_fail("_fd_update_root.guards", f"unit-norm window / padding-mass threshold not found as (lo <= norms) & (norms <= hi), "
+                       f"padding_mass > thr: got {lo!r}, {hi!r}, {thr!r}")
+    else:
+        GUARDS.update({"lo": lo, "hi": hi, "thr": thr})
+        if not (lo <= 1.0 <= hi):
+            ctx.const_fail("_fd_update_root.guards", f"window [{lo}, {hi}] does not contain 1: hypotheses hlo/hhi of ds_guards_are_identities fail "
+                           "(unit singular vectors would be zeroed)")
+        if not (0.0 <= thr):
+            ctx.const_fail("_fd_update_root.guards", f"padding-mass threshold {thr} < 0: hypothesis hthr of ds_guards_are_identities fails")
     try:
         tol = consts.func_default("distributed_shampoo.py", "_fd_update_root", "error_tolerance")
         ctx.cov.setdefault("constants", {})["_fd_update_root.error_tolerance"] = tol
@@ -1008,6 +1140,10 @@ def run(ctx):
         "correspondence: model at Float from the implementation's previous state, LAPACK SVD of the model's own B checked by the driver "
         f"against SvdSpec (1e-10); TOL {KTOL64} (float64) / {KTOL32} (float32) of max|B B'|; inverse roots compared only on directions kept by both",
         "K5 is recognised by: ds_public trace with dim < max_size and a failure of the upper bracket / stored inverse roots",
+        "Sketchy options: relative_epsilon, add_ggt, ekfac_svd, memory_alloc, update_freq leave (eigvecs, eigvals, tail) and hence the whole "
+        "statement unchanged and are exercised; linear_approx_tail replaces `tail` by a fitted estimate (and drops it from the inverse roots): "
+        "only the sketch-side clauses (sketch <= C, orthonormal-or-zero columns, l >= 0, zero-gradient discount of the sketch, exactness of "
+        "rank<=k histories, tail not NaN and >= 0) are checked there; ema_ggt (add_ggt) is outside the statement (discount recorded in the distribution)",
     ]
     cases = load_corpus() + gen_cases(ctx.tier, ctx.seed)
     ctx.cov["corpus_cases"] = len(load_corpus())
